@@ -104,6 +104,7 @@ func genStop(c *ctx) {
 		cfg := e2eCfg{upload: b%2 == 0, binary: (b/2)%2 == 0, directory: b%3 == 0, overwrite: b%4 == 1 || b%3 == 0, proto: []int{-1, 2, 0, 4, 3}[b%5],
 			timeout: 5, quiet: b%2 == 1, bufsize: "4k", deadline: 30 * time.Second}
 		cfg.tunnel = b%3 == 1 // the transfer runs over a direct tunnel connection (loopback TCP)
+		cfg.hookTunnel = true // ... whose writes are stop boundaries like the in-band ones
 		tops := stopTree(rng, root, cfg.directory)
 		counts := baselineCounts(cfg, tops, root)
 		per := c.pick(10, 80)
@@ -206,6 +207,11 @@ func genStop(c *ctx) {
 					break
 				}
 			}
+		}
+		if !stopAt.IsZero() && s.outcome == "error" {
+			// each side reports that it was stopped (or success): any other final message after a
+			// delivered stop means a side was not told / did not notice
+			s.bad = append(s.bad, fmt.Sprintf("not-reported-as-stopped: after the stop the transfer ended with %q", tailStr(shown, 200)))
 		}
 		if !stopAt.IsZero() && s.dur > 8*time.Second {
 			s.bad = append(s.bad, fmt.Sprintf("slow-stop: both sides needed %.1fs after the stop", s.dur.Seconds()))
